@@ -8,6 +8,7 @@
 From Coq Require Import String Ascii.
 From Coq Require Import List ZArith Bool.
 From Verif Require Import C07.Model C07.Spec C07.Proofs C07.SessionProofs C07.Findings C07.Consumer.
+From Verif Require Import C07.Held C07.HeldProofs.
 Import ListNotations.
 Open Scope Z_scope.
 
@@ -303,6 +304,95 @@ Proof.
   intros st ts F. apply session_req_ip_pure. exact F.
 Qed.
 Print Assumptions C07_struct_reuse_independent_outside_inplace.
+
+(* ------------------------------------------------------------------ held encodings *)
+
+(* The encoding handed out for a transaction is read when its ack frame is
+   written, after other transactions (request or response side, any number,
+   before and after it) were combined and encoded.  [held_read ts] = the
+   encodings of the history [ts] as read once all of it was encoded.
+   (1) whatever the history, the encoding of transaction [t] reads as
+       [encode_held t] = the variables of the fold of t's own actions;
+   (2) one encoding per transaction;
+   (3)/(4) under the side condition of C07_encoding it still DENOTES t's
+       combined action (kind, status, body, path/host/query, header map).
+   In this model an encoding is a value, so (1) is true by construction; it is
+   stated because it is the specification the suite "held" checks against the
+   implementation, where it is not automatic: variables built over recycled
+   storage satisfy every statement above (each reads its encoding at once) and
+   break this one ([C07_held_pooled_variant_refuted] below). *)
+Theorem C07_held_encodings_are_values :
+  (forall pre t post,
+     nth_error (held_read (pre ++ t :: post)) (length pre) = Some (encode_held t)) /\
+  (forall ts, length (held_read ts) = length ts) /\
+  (forall pre l post, Forall (fun a => hdrs_wf (req_hdrs a)) l ->
+     exists vs, nth_error (held_read (pre ++ HReq l :: post)) (length pre) = Some vs /\
+                decode_req vs = Some (erase_rm (fold_req l))) /\
+  (forall pre l post, Forall (fun a => hdrs_wf (resp_edits a)) l ->
+     exists vs, nth_error (held_read (pre ++ HResp l :: post)) (length pre) = Some vs /\
+                decode_resp vs = Some (fold_resp l)).
+Proof.
+  split; [exact held_read_nth|]. split; [exact held_read_length|]. split.
+  - intros pre l post W. exists (spoe_req l). split; [exact (held_read_nth pre (HReq l) post)|].
+    exact (proj1 C07_encoding l W).
+  - intros pre l post W. exists (spoe_resp l). split; [exact (held_read_nth pre (HResp l) post)|].
+    exact (proj1 (proj2 C07_encoding) l W).
+Qed.
+Print Assumptions C07_held_encodings_are_values.
+
+(* VARIANT (seeded change C07-8): the body bytes of an early response are a
+   view of one recycled buffer.  A single transaction reads back what it wrote
+   (why every check that looks at the variables at once passes) ... *)
+Theorem C07_held_pooled_variant_invisible_at_once : forall t,
+  held_read_pooled [t] = held_read [t].
+Proof. exact held_pooled_single. Qed.
+Print Assumptions C07_held_pooled_variant_invisible_at_once.
+
+(* ... and the variant is not the value semantics: an early response held
+   while a second one is encoded is sent with the second one's bytes *)
+Theorem C07_held_pooled_variant_refuted :
+  ~ (forall ts, held_read_pooled ts = held_read ts).
+Proof.
+  intro H.
+  specialize (H [HReq [REarly 200 [97; 97; 97; 97] []]; HReq [RNoOp; REarly 429 [98; 98] []]]).
+  vm_compute in H. discriminate.
+Qed.
+Print Assumptions C07_held_pooled_variant_refuted.
+
+(* ------------------------------------------------------------------ header names *)
+
+(* VARIANT (seeded change C07-7): ModifyResponse x ModifyResponse sets the
+   body-describing headers back to the first modification's values.  The
+   statements above are about ARBITRARY names; the variant violates
+   C07_resp_mods_merge for the names content-type / content-length /
+   content-encoding ... *)
+Theorem C07_resp_pinned_variant_refuted :
+  ~ (forall l b s,
+       Forall (fun a => is_retry a = false) l -> first_mod l = Some (b, s) ->
+       exists h, fold_resp_pinned l = PModResp h b s /\
+                 forall k, lookup k h = last_edit k (map resp_edits l)).
+Proof.
+  intro H.
+  specialize (H [PModResp [(n_content_type, [49])] [120] 200; PNoOp;
+                 PModResp [(n_content_type, [50])] [] 500] [120] 200).
+  destruct H as [h [E U]]; [repeat constructor|reflexivity|].
+  vm_compute in E. inversion E; subst h. specialize (U n_content_type).
+  vm_compute in U. discriminate.
+Qed.
+Print Assumptions C07_resp_pinned_variant_refuted.
+
+(* ... and only for them: on sequences that never name one of the three
+   (what a generator confined to abstract names produces) the variant IS the
+   code, for every sequence - which is why the header pools of the harness
+   carry the names that real processors and proxies treat specially *)
+Theorem C07_resp_pinned_variant_same_on_other_names : forall l,
+  Forall (fun a => no_body_bound (resp_edits a) = true) l ->
+  fold_resp_pinned l = fold_resp l.
+Proof.
+  intros l F. unfold fold_resp_pinned, fold_resp.
+  apply fold_resp_pinned_same_from; [reflexivity|exact F].
+Qed.
+Print Assumptions C07_resp_pinned_variant_same_on_other_names.
 
 (* ------------------------------------------------------------------ non-vacuity *)
 
@@ -611,4 +701,28 @@ Example C07_findings_example :
     = Some [(kA, [104; 116; 116; 112])] /\
   lua_parse_headers (dump [(kA, []); (kB, v2)]) = Some [(kB, v2)] /\
   lua_parse_headers (dump [([], [])]) = None.
+Proof. vm_compute. repeat split; reflexivity. Qed.
+
+(* ------------------------------------------------------------------ held encodings, seeded variants *)
+
+(* non-vacuity: a history of four transactions of both sides; the first early
+   response is read back whatever follows; under the pooled variant it is not;
+   the pinned variant differs from the code on content-type and agrees on "a" *)
+Example C07_held_example :
+  let e1 := REarly 200 [97; 97; 97; 97] [(kA, v1)] in
+  let ts := [HReq [RModHeaders [(kB, v2)]; e1; REarly 503 [] []];
+             HResp [PModResp [(kA, v1)] [120] 200];
+             HReq [REarly 429 [98; 98] []];
+             HReq [RModRequest [(kA, v2)] [] [47] [] [99; 99; 99]]] in
+  nth_error (held_read ts) 0 = Some (encode_req e1) /\
+  decode_req (nth 0 (held_read ts) []) = Some e1 /\
+  nth_error (held_read_pooled ts) 0 = Some (encode_req (REarly 200 [98; 98; 97; 97] [(kA, v1)])) /\
+  nth_error (held_read_pooled ts) 3 = nth_error (held_read ts) 3 /\
+  fold_resp_pinned [PModResp [(n_content_type, v1); (kA, v1)] [120] 200;
+                    PModResp [(n_content_type, v2); (kA, v2)] [] 500]
+    = PModResp [(kA, v2); (n_content_type, v1)] [120] 200 /\
+  fold_resp [PModResp [(n_content_type, v1); (kA, v1)] [120] 200;
+             PModResp [(n_content_type, v2); (kA, v2)] [] 500]
+    = PModResp [(n_content_type, v2); (kA, v2)] [120] 200 /\
+  no_body_bound [(kA, v1); (kB, v2)] = true /\ no_body_bound [(n_content_type, v1)] = false.
 Proof. vm_compute. repeat split; reflexivity. Qed.
